@@ -150,6 +150,13 @@ def run(tier, replay):
                 if n <= 8 or n in (32, 33, 1000):
                     texts.append(("wide", head + commas + close + "\r\n"))
                     texts.append(("wide", head + "7" + commas + close + "\r\n"))
+        # DEFtype statements over letters of both cases, in both orders (a range that runs backwards is one located error)
+        for kw in ("DEFINT", "DEFLNG", "DEFSNG", "DEFDBL", "DEFSTR"):
+            for lo in "AaCcMmXxZz":
+                for hi in "AaCcMmXxZz":
+                    texts.append(("deftype-range", "%s %s-%s\r\nPRINT 1\r\n" % (kw, lo, hi)))
+                    if lo == "M":
+                        texts.append(("deftype-range", "%s %s-%s, %s\r\nPRINT 1\r\n" % (kw, lo, hi, hi)))
         bom = "\ufeff"
         for t in ['PRINT "hi"\r\n', "", "\r\n", "X = 1 : PRINT X\r\n", "' comment\r\nPRINT 1\r\n", "10 PRINT 1\r\n", "SUB P\r\nEND SUB\r\n"]:
             texts.append(("bom", bom + t))
